@@ -117,8 +117,81 @@ def reline(tree, rng, noline_ok):
     return tree
 
 
+NAME_VARIANTS = [
+    lambda n: u"\ufb01" + n,          # ligature: the parser would normalise it (NFKC) to "fi", the compiler takes it verbatim
+    lambda n: u"\xb5" + n,            # micro sign (NFKC: Greek mu)
+    lambda n: n + u"\u02b7",          # modifier letter small w (NFKC: w)
+    lambda n: u"\uff4e" + n,          # full-width n
+    lambda n: u"\xe9" + n,            # plain non-ASCII identifier
+    lambda n: n + u"\udcff",          # lone surrogate: not encodable as UTF-8
+    lambda n: n + u"'s",              # apostrophe: not an identifier, still a legal co_varnames entry
+    lambda n: n + u"\udce9's",        # surrogate and an apostrophe, no double quote (what os.fsdecode gives for "caf\xe9's")
+    lambda n: n + u'"q',              # double quote
+    lambda n: n + u"\\n \t",          # backslash, blanks
+    lambda n: n + u"\udc80\"'",       # surrogate with both quote kinds
+    lambda n: n,
+    lambda n: n,
+]
+TEXT_VARIANTS = [u"it's \udce9", u"\udcff'", u'say "\udc80"', u"both ' and \" \ud800", u"back\\slash \udfff's", u"plain \xe9 \u20ac",
+                 u"caf\udce9's.py", u"'", u"\udc80", u"\ud83d\ude00 pair then lone \ud83d"]
+
+
+def rename_identifiers(tree, rng):
+    """Rewrite the identifiers a program defines (parameters, assigned names, def/class names), its docstrings and some
+    of its string constants through the AST.  The compiler takes AST strings verbatim, so the code objects carry
+    names and texts that no source file can: not NFKC-normalised, not identifiers, not encodable."""
+    import ast
+    defined = set()
+    for n in ast.walk(tree):
+        if isinstance(n, ast.arg):
+            defined.add(n.arg)
+        elif isinstance(n, ast.Name) and isinstance(n.ctx, ast.Store):
+            defined.add(n.id)
+        elif isinstance(n, (ast.FunctionDef, ast.AsyncFunctionDef, ast.ClassDef)):
+            defined.add(n.name)
+    defined = sorted(d for d in defined if not (d.startswith("__") and d.endswith("__")))
+    m = dict((d, rng.choice(NAME_VARIANTS)(d)) for d in defined)
+    for n in ast.walk(tree):
+        if isinstance(n, ast.arg) and n.arg in m:
+            n.arg = m[n.arg]
+        elif isinstance(n, ast.Name) and n.id in m:
+            n.id = m[n.id]
+        elif isinstance(n, (ast.FunctionDef, ast.AsyncFunctionDef, ast.ClassDef)) and n.name in m:
+            n.name = m[n.name]
+        elif isinstance(n, ast.keyword) and n.arg in m:
+            n.arg = m[n.arg]
+        elif isinstance(n, (ast.Global, ast.Nonlocal)):
+            n.names = [m.get(x, x) for x in n.names]
+        elif isinstance(n, ast.ExceptHandler) and n.name in m:
+            n.name = m[n.name]
+        # string constants (docstrings included): about a third get a hostile text
+        s_ = getattr(n, "s", None) if n.__class__.__name__ == "Str" else (getattr(n, "value", None) if n.__class__.__name__ == "Constant" else None)
+        if isinstance(s_, str) and rng.random() < 0.35:
+            new = rng.choice(TEXT_VARIANTS)
+            if n.__class__.__name__ == "Str":
+                n.s = new
+            else:
+                n.value = new
+    return tree
+
+
 def compile_case(case):
     """Returns (id, code, text) or (id, None, reason) when the source does not compile."""
+    if case["k"] == "astnames":
+        import ast
+        id_, text, filename, mode, opt = resolve(case["base"])
+        id_ = "astnames:%s:%s" % (case["i"], id_)
+        try:
+            with warnings.catch_warnings():
+                warnings.simplefilter("ignore")
+                tree = ast.parse(text, filename)
+                r = H.rng_for(case["seed"], "astnames", case["i"])
+                tree = rename_identifiers(tree, r)
+                fn = r.choice(TEXT_VARIANTS + ["<astnames-%s>" % case["i"]] * 4)
+                code = compile(tree, fn, "exec", dont_inherit=True, optimize=opt)
+        except (SyntaxError, ValueError, RecursionError, MemoryError, OverflowError, TypeError, SystemError, UnicodeError) as e:
+            return id_, None, "astnames-compile:%s" % type(e).__name__
+        return id_, code, text
     if case["k"] == "astnoline":
         # 3.10: a statement without a location in a block that joins two branches -> the real assembler emits no-line runs
         import ast
@@ -149,7 +222,7 @@ def compile_case(case):
     if case["k"] == "w9":
         import gen_const
         try:
-            return gen_const.build_case(case["seed"], case["i"])
+            return gen_const.build_case(case["seed"], case["i"], case.get("pair"))
         except (ValueError, TypeError, SystemError) as e:
             return "w9:%s" % case["i"], None, "w9-build:%s" % type(e).__name__
     id_, text, filename, mode, opt = resolve(case)
@@ -166,9 +239,9 @@ def replay_case(case):
     """Self-contained copy of a case for a replay file (text inlined when small)."""
     if case["k"] in ("w9", "astnoline"):
         return case
-    if case["k"] == "ast":
+    if case["k"] in ("ast", "astnames"):
         b = replay_case(case["base"])
-        return dict(case, base=b, id="ast:%s:%s" % (case["i"], b.get("id")))
+        return dict(case, base=b, id="%s:%s:%s" % (case["k"], case["i"], b.get("id")))
     try:
         id_, text, filename, mode, opt = resolve(case)
     except Exception:
@@ -200,6 +273,11 @@ def iter_cases(shard):
             continue
         H.count("cases")
         t = time.time()
+        if sys.flags.bytes_warning:
+            relaxed = H.mixes_str_and_bytes_in_a_set(code)
+            H.bytes_strict(not relaxed)
+            if relaxed:
+                H.count("bytes_warning_relaxed_cases")
         yield case, id_, code, text
         dt = time.time() - t
         if dt > 1.0:
